@@ -26,6 +26,9 @@ func TestDevFile(t *testing.T) {
 		p = pp
 	} else {
 		p = gobatch.Program{Decls: strings.Split(string(data), "\n//--\n"), Entry: os.Getenv("C08_ENTRY")}
+		if imp := os.Getenv("C08_IMPORTS"); imp != "" {
+			p.Imports = strings.Split(imp, ",")
+		}
 	}
 	if err := gobatch.Vet(p); err != nil {
 		t.Fatalf("vet: %v", err)
